@@ -67,7 +67,9 @@ def make_entries(fmt, n, lens, rng):
             out.append(f"c{num}\t{num}\t{int(num) + 5}\tn{'x' * l}\t{'.' if i % 3 == 0 else i}\t{'+-'[i % 2]}\n")
         elif fmt == "bdg":
             # some values with 16-17 significant digits: parsing a row must not depend on the rows that share its buffer
-            val = [f"{i}.5", f"{i}.5", "0.30000000000000004", f"{i + 1}23456.78901234567", "99999999.99999999"][(i + len(lens) + l) % 5]
+            # … and exponent notation, leading dot, explicit sign: all valid float texts
+            val = [f"{i}.5", f"{i}.5", "0.30000000000000004", f"{i + 1}23456.78901234567", "99999999.99999999",
+                   f"{i + 1}.25e-1", f"{i + 1}e2", f"-{i}.5e+1", f".{i + 1}", f"+{i}.25"][(i + len(lens) + l) % 10]
             out.append(f"c{num}\t{num}\t{int(num) + 5}\t{val}\n")
         elif fmt == "bed12":
             blocks = ",".join(str(10 ** (l - 1) + j) for j in range(i % 3 + 1)) + ("," if i % 2 else "")
